@@ -790,7 +790,7 @@ def key_predicate(case, impl):
     if case.get("class_attr"):
         # a method / dunder / constant of the class is not a setting: the key resolves to no setting and must be refused
         if ok:
-            return ("set-accepts-class-attribute:" + str(case["class_attr"]),
+            return ("set-accepts-class-attribute:" + ("Arguments" if case["class_attr"] == "Arguments" else "plain-object"),
                     "key %r names a method / class-level attribute of %s, not a setting, but %s accepted the assignment "
                     "(processor now differs at %s)" % (".".join(key), case["class_attr"], case["entry"], impl["diff"]))
         return None
